@@ -22,7 +22,7 @@ import numpy as np
 
 from . import gen
 from . import oracle as orc
-from .build import (Case, Workdir, run_stream, status_text, summarize_report, case_from_json,
+from .build import (BuildError, Case, Workdir, run_stream, status_text, summarize_report, case_from_json,
                     ST_OK, ST_EXIT, ST_SIGNAL, ST_TIMEOUT, ST_NOTRUN, SAN_EXITCODE)
 
 KEEP_PER_TASK = 6        # violations kept per clause per task (the smallest of the task)
@@ -39,9 +39,9 @@ C18_CLAUSES = ["completed", "pair_equals_fresh", "chain_equals_fresh", "uninit_r
 
 TIERS = {
     "c04": {"quick": dict(B=6, nrandom=0, maxdim=16, budget_ms=5000),
-            "thorough": dict(B=9, B5=6, nrandom=3000, maxdim=16, budget_ms=10000)},
+            "thorough": dict(B=9, B5=6, nrandom=6000, maxdim=16, budget_ms=10000)},
     "c20": {"quick": dict(B=6, nrandom=0, maxdim=24, budget_ms=5000, pairB=6, pairK=3),
-            "thorough": dict(B=9, nrandom=3000, maxdim=24, budget_ms=10000, pairB=8, pairK=4)},
+            "thorough": dict(B=9, nrandom=8000, maxdim=24, budget_ms=10000, pairB=8, pairK=4)},
     "c18": {"quick": dict(B=6, K=4, chains=8, chainlen=60, budget_ms=5000),
             "thorough": dict(B=8, K=5, chains=32, chainlen=120, budget_ms=10000)},
 }
@@ -282,6 +282,10 @@ def edge_fields():
                 out.append((p * np.float32(scale)).astype(np.float32))
             out.append((p * np.float32(8.0) + np.float32(1e8)).astype(np.float32))
             out.append((p * np.float32(1e-45)).astype(np.float32))
+    # smallest input found (random search, 10 cells) on which a watershed-line bin is attached, by
+    # step 2 of pt_fld (nearest value among labelled neighbours), to a partition whose peak it cannot
+    # reach by a monotone path: keeps the advisory clause tie_within_reach non-vacuous in every tier
+    out.append(np.array([[0, 8], [5, 3], [2, 6], [1, 4], [9, 7]], dtype=np.float32))
     return out
 
 
@@ -333,7 +337,7 @@ def run_c04(tier, wd, clauses):
     nexh = sum(gen.nfields(s) for s in shapes) * len(C04_IHMAX_EXH)
     bound = ("BOUNDED: exhaustive over all grids (nk,nth>=1) with nk*nth <= %d cells, values in "
              "{0,1,2} (float32), ihmax in %s = %d cases, every circular direction shift of each; "
-             "plus %d fixed magnitude edge cases" % (cfg["B"], list(C04_IHMAX_EXH), nexh, len(edge)))
+             "plus %d fixed edge cases (magnitudes, one known tie case)" % (cfg["B"], list(C04_IHMAX_EXH), nexh, len(edge)))
     if nexh5:
         bound += ("; plus exhaustive over all grids with nk*nth <= %d, values in {0,1,2,3,4}, ihmax in %s "
                   "= %d cases, every shift" % (cfg["B5"], list(C04_IHMAX_EXH5), nexh5))
@@ -740,10 +744,13 @@ def replay(which, case, repo="/repo", clauses=None) -> dict:
             if not const:
                 an = orc.analyse(c.nk, c.nth, [int(v) for v in imi.ravel()])
                 out["regional_maxima_plateaus(flat idx = ifreq*nth+idir)"] = an.min_cells
+            gating = clauses or list(orc.GATING_C04)
             out["clauses"] = {k: ("FAIL" if b else ("ok" if a else "not evaluated"))
+                              + ("" if k in gating else " (advisory)")
                               for k, (a, b) in p["counts"].items()}
             out["violations"] = [v for lst in p["viol"].values() for v in lst]
-            out["violated"] = any(b for a, b in p["counts"].values())
+            out["violated"] = any(b for k, (a, b) in p["counts"].items() if k in gating)
+            out["advisory_failed"] = [k for k, (a, b) in p["counts"].items() if b and k not in gating]
         elif which == "c20":
             seqs = {"alone_in_fresh_process": [Case(c.nk, c.nth, c.ihmax, c.values, fresh=True)]}
             if hist:
@@ -792,6 +799,14 @@ def main(argv=None):
     ap.add_argument("--replay", default=None, help="JSON of one case: re-run it and print clause results")
     a = ap.parse_args(argv)
     clauses = [c.strip() for c in a.clauses.split(",") if c.strip()] if a.clauses else None
+    try:
+        return _main(a, clauses)
+    except (BuildError, ValueError) as e:
+        print("[bounded] ERROR: %s" % e, file=sys.stderr)
+        return 2
+
+
+def _main(a, clauses):
     if a.replay:
         res = replay(a.which, json.loads(a.replay), a.repo, clauses)
         print(json.dumps(res, indent=1))
